@@ -527,3 +527,80 @@ theorem planArc_covers (p : Position ℝ) (endX endY i j : ℝ) (cw : Bool) (hij
       exact hk
 
 end ERP.C16
+
+namespace ERP.C16
+open ERP Real T
+
+/-! ## From sampling to suppression -/
+
+/-- in absolute mode the native coordinate a word leads to does not depend on where the axis is -/
+theorem cur_setLog_abs (a : Axis ℝ) (v : ℝ) (h : a.absoluteMode = true) :
+    cur (setLog a (some v)) = v * a.unitMultiplier + (a.offset + a.homeOffset) := by
+  simp [setLog, l2n, h, cur]
+
+/-- the point loop of `isAnyPointExcluded` reports a hit as soon as one tested point (converted to
+native coordinates in the *current* frame) lies in an enabled region -/
+theorem isAnyLoop_hit (pts : List (ℝ × ℝ)) :
+    ∀ (s : FState ℝ) (any : Bool), s.position.x.absoluteMode = true → s.position.y.absoluteMode = true →
+      (∃ q ∈ pts, T.isPointExcluded s (q.1 * s.position.x.unitMultiplier + (s.position.x.offset + s.position.x.homeOffset))
+                                      (q.2 * s.position.y.unitMultiplier + (s.position.y.offset + s.position.y.homeOffset)) = true) →
+      (T.isAnyLoop s (pts.map (fun q : ℝ × ℝ => (some q.1, some q.2))) any).2 = true := by
+  -- once true, always true
+  have mono : ∀ (l : List (Option ℝ × Option ℝ)) (s' : FState ℝ), (T.isAnyLoop s' l true).2 = true := by
+    intro l
+    induction l with
+    | nil => intro s'; rfl
+    | cons p' r' ih' => intro s'; obtain ⟨u, v⟩ := p'; simp only [T.isAnyLoop, Bool.true_or]; exact ih' _
+  induction pts with
+  | nil => intro s any _ _ h; obtain ⟨q, hq, _⟩ := h; cases hq
+  | cons p rest ih =>
+    intro s any hx hy h
+    obtain ⟨a, b⟩ := p
+    simp only [List.map_cons, T.isAnyLoop]
+    obtain ⟨q, hq, hex⟩ := h
+    rcases List.mem_cons.mp hq with hqe | hq'
+    · -- this very point is excluded: the accumulator becomes true and stays true
+      rw [hqe] at hex
+      have hacc : (any || T.isPointExcluded
+          { s with position := { s.position with x := setLog s.position.x (some a), y := setLog s.position.y (some b) } }
+          (cur (setLog s.position.x (some a))) (cur (setLog s.position.y (some b)))) = true := by
+        rw [cur_setLog_abs _ _ hx, cur_setLog_abs _ _ hy]
+        have : T.isPointExcluded
+            { s with position := { s.position with x := setLog s.position.x (some a), y := setLog s.position.y (some b) } }
+            (a * s.position.x.unitMultiplier + (s.position.x.offset + s.position.x.homeOffset))
+            (b * s.position.y.unitMultiplier + (s.position.y.offset + s.position.y.homeOffset)) = true := hex
+        rw [this]; simp
+      rw [hacc]
+      exact mono _ _
+    · exact ih { s with position := { s.position with x := setLog s.position.x (some a), y := setLog s.position.y (some b) } }
+        _ hx hy ⟨q, hq', hex⟩
+
+/-- **An arc that reaches deeper into a region than the sampling resolution is excluded as a
+whole** (millimetres, no workspace offsets, absolute positioning): if some point of the commanded
+arc has its whole closed unit disc inside one enabled region, the region test of the arc reports a
+hit, so the command is suppressed. -/
+theorem deep_arc_is_hit (s : FState ℝ) (endX endY i j : ℝ) (cw : Bool) (hij : i ≠ 0 ∨ j ≠ 0)
+    (hx : s.position.x.absoluteMode = true) (hy : s.position.y.absoluteMode = true)
+    (ux : s.position.x.unitMultiplier = 1) (uy : s.position.y.unitMultiplier = 1)
+    (ox : s.position.x.offset + s.position.x.homeOffset = 0) (oy : s.position.y.offset + s.position.y.homeOffset = 0)
+    (hen : s.exclusionEnabled = true)
+    (hon : (endX - (T.n2l s.position.x + i)) ^ 2 + (endY - (T.n2l s.position.y + j)) ^ 2 = i * i + j * j)
+    (t : ℝ) (ht0 : 0 ≤ t) (ht1 : t ≤ 1) (R : Region ℝ) (hR : R ∈ s.excludedRegions)
+    (hdeep : ∀ q : ℝ × ℝ,
+      ((arcPoint (T.n2l s.position.x + i) (T.n2l s.position.y + j) (Real.sqrt (i * i + j * j)) (Complex.arg ⟨-i, -j⟩)
+          (T.angularTravel (T.n2l s.position.x) (T.n2l s.position.y) endX endY i j cw) t).1 - q.1) ^ 2 +
+      ((arcPoint (T.n2l s.position.x + i) (T.n2l s.position.y + j) (Real.sqrt (i * i + j * j)) (Complex.arg ⟨-i, -j⟩)
+          (T.angularTravel (T.n2l s.position.x) (T.n2l s.position.y) endX endY i j cw) t).2 - q.2) ^ 2 ≤ 1 →
+      R.containsPoint q.1 q.2 = true) :
+    (T.isAnyLoop s ((T.planArc s.position endX endY i j cw).map (fun (a, b) => (some a, some b))) false).2 = true := by
+  obtain ⟨q, hq, hnear⟩ := planArc_covers s.position endX endY i j cw hij hon t ht0 ht1
+  have hf : (fun (x : ℝ × ℝ) => match x with | (a, b) => (some a, some b)) = (fun q : ℝ × ℝ => (some q.1, some q.2)) := by
+    funext ⟨a, b⟩; rfl
+  rw [hf]
+  apply isAnyLoop_hit _ s false hx hy
+  refine ⟨q, hq, ?_⟩
+  rw [ux, uy, ox, oy]
+  simp only [mul_one, add_zero, T.isPointExcluded, hen, Bool.true_and, T.anyContains, List.any_eq_true]
+  exact ⟨R, hR, hdeep q hnear⟩
+
+end ERP.C16
